@@ -459,6 +459,36 @@ func runC07(c *Cfg) {
 			r.Nontrivial(fmt.Sprintf("dup %s %d", kind, cc))
 		}
 	}
+	// the same batch node object run three times with its work list refilled in place: every run processes THIS run's items
+	for v := 0; v < 16; v++ {
+		if !c.Mine(v) {
+			continue
+		}
+		rc := &ReuseCase{Family: "batch-node-reused-with-refilled-list", PrepAny: v&1 != 0, ExecR: v&2 != 0, C: []int{0, 3}[v>>2&1], ViaFlowLoop: v&8 != 0}
+		for _, f := range runReuseCase(rc) {
+			r.Violate("C07", "C07:reused-node:"+f.key, "every item of this run is processed exactly once — "+f.detail, rc)
+		}
+		r.Eval()
+		r.Count("reused_node.cases", 1)
+		r.Nontrivial(fmt.Sprintf("reuse %d", v))
+	}
+	// a context deadline that lies beyond an item's next attempt, but before the end of its whole worst-case retry
+	// schedule: the item still gets the attempts that fit (budget 4, wait 100 ms, success on attempt 2, deadline 350 ms)
+	var dw []*BatchCase
+	for _, cc := range []int{0, 2} {
+		for _, fb := range []bool{false, true} {
+			it := []ItemScript{{K: 2}, {K: 1}, {K: 2}}
+			dw = append(dw, &BatchCase{Family: "deadline-inside-the-retry-schedule", N: 3, C: cc, Budget: 4, FB: fb, Items: it, Shape: map[bool]string{true: "any", false: "results"}[fb], Build: map[bool]string{true: "compose", false: "builder"}[fb], ExecStyle: "any", WaitMs: 100, FarDeadlineMs: 350 + cc*100})
+		}
+	}
+	gatedLoop(c, len(dw), func(i int) *BatchCase { return dw[i] }, func(i int, cs *BatchCase, o *BatchObs) {
+		if o.Discard {
+			r.Count("deadline_inside_schedule.discarded", 1)
+			return
+		}
+		r.Count("deadline_inside_schedule.runs", 1)
+		r.Nontrivial(fmt.Sprintf("dw %d %v", cs.C, cs.FB))
+	}, "C07")
 	nr := c.Pick(6000, 300000)
 	gatedLoop(c, nr, func(i int) *BatchCase {
 		rg := c.Rng("c07", i)
